@@ -64,7 +64,8 @@ def run_root(P, key, contract=None, e3=True, time_budget=120, I=None, cut_set=No
     I = I or make_interp(P, e3, cut_set)
     st = State()
     t0 = time.time()
-    I.deadline = t0 + time_budget
+    # CPU time of this process, not wall time: a loaded machine must not turn into 'time budget exceeded'
+    I.deadline = time.process_time() + time_budget
     res = {'root': key, 'ok': True, 'error': None}
     try:
         args = root_args(I, inst, st, contract)
@@ -109,6 +110,7 @@ if __name__ == '__main__':
             mm.check_domain(r['interp'], inst, vs[0][0], r['results'])
             mm.check_spec_post(r['interp'], inst, r['results'], r.get('args', []))
             mm.check_iter_post(r['interp'], inst, r['results'], r.get('args', []))
+            mm.check_period_test(r['interp'], inst, r['results'], r.get('args', []))
             mm.check_verified(r['interp'], inst, r['results'], r.get('args', []))
             from . import eqspec
             eqspec.check(r['interp'], inst, r['results'], r.get('args', []))
